@@ -27,3 +27,18 @@ claimed["C03"] = (
  "exhaustive configuration + history enumeration on the real container, invariant oracle over a recorder of every constructor invocation",
  "Transient lifetime: every transient instance handed out exactly once (as a result or as a constructor argument) and every successful construction delivered - on every configuration, every history to depth 3/4 (transients consumed by singletons at Build, by scoped services, by other transients, twice by one constructor, through groups and keys) and concurrent resolutions.",
  _life_note, "DESIGN.md 6/C03")
+claimed["C10"] = (
+ "exhaustive history x fault-position enumeration on the real container + preemption-bounded schedule exploration of Close vs in-flight construction; end-state oracle over recorded Close calls",
+ "Every history to depth 5/6 on <=3 scopes of an all-disposable container, every single constructor fault position (error / panic at invocation 1..2(3) of each of 8 constructors, during Build, scope creation with initializers, resolution) over every history to depth 3/4, and every schedule (bound 2/3) of 7 Close-vs-construction scenarios; each execution ends by closing the provider and is judged by: closed exactly once, never before a Close/cancel of the owner chain started, never leaked, non-disposables untouched.",
+ "bounds as stated; one fault per execution; owners are derived from the operation during which the constructor ran",
+ "DESIGN.md 6/C10")
+claimed["C11"] = (
+ "exhaustive history enumeration on the real container; order oracle on the global stamp sequence of recorded Close calls",
+ "Every history to depth 5/6 over {CreateScope, nested CreateScope, 4 resolutions, Close(scope|provider), cancel} on <=3 scopes (+ root scope) of an all-disposable container with and without initializers; oracle: reverse creation order within each owner, descendants before ancestors' own instances, every scope-owned instance before any singleton.",
+ "bounds as stated; sequential histories only (the property does not quantify over schedules)",
+ "DESIGN.md 6/C11")
+claimed["C12"] = (
+ "exhaustive fault-subset enumeration (all 2^8 subsets of failing Close methods x 5 first-close choices) + preemption-bounded schedule exploration of concurrent Close calls",
+ "All 256 subsets of 8 owned disposables failing on a 4-scope tree x {Close(s1), Close(s2), Close(s3), Close(provider), cancel} first, then repeated closes; plus every schedule (bound 2/3) of 2-3 concurrent Close / cancel calls with 3 failing sets. Oracle: every owned instance attempted exactly once, DisposalError iff a failing instance was closed by that call, every injected error reachable from exactly one returned error, repeated and losing Closes return nil.",
+ "bounds as stated; errors of closes performed by the cancellation watcher are documented as ignored and are not required to be reported",
+ "DESIGN.md 6/C12")
